@@ -356,7 +356,8 @@ def _trait_limits(ctx, mod, cap):
         subs = [n for n in body if n.kind == 'stmt' and
                 isinstance(n.ast, ast.AugAssign)]
         for node in subs:
-            mine = [f for f in facts[node] if var in f.mentions]
+            mine = [f for f in N.raw_only(facts[node])
+                    if var in f.mentions]
             ok = len(mine) == 1 and mine[0].key[0] == 'in' and \
                 mine[0].key[3] and mine[0].key[1] == var and \
                 mine[0].key[2] == 'free'
